@@ -58,7 +58,7 @@ JudgeChain(e, i) ==
                       kbr == KB_Rep(e.chain, e.A, e.rep) IN
                   PrintT(<<"MISMATCH", tid, i,
                            IF \/ kb # {} /\ exp = "Rejected" /\ e.oc = "ok"
-                              \/ kbr # {} /\ exp = "ok" /\ e.oc = "ok"
+                              \/ kbr # {} /\ exp = "ok" /\ e.oc = SerializeDataR(e.chain, e.A, e.rep).oc
                            THEN "known" ELSE "unknown", kb \cup kbr, exp>>)
 
 JudgeCompress(e, i) ==
